@@ -132,7 +132,8 @@ def rand_script(rnd):
 
 # ---------------------------------------------------------------------------------------------------------------------
 def est_lines(s):
-    return 3 * len(s["top"]) + 4 * sum(len(v) + 1 for v in s["cb"].values()) + 12
+    # measured: about 4 lines per scripted operation ("call" lines and invocations included); TLC accepts behaviours of < 65535 states
+    return 5 * len(s["top"]) + 6 * sum(len(v) + 1 for v in s["cb"].values()) + 12
 
 
 def run_scripts(ctx, exe, scripts, tag, counted_as, parallel=3):
@@ -172,25 +173,28 @@ def run_scripts(ctx, exe, scripts, tag, counted_as, parallel=3):
 
 
 def script_from_trace(lines):
-    """--replay: rebuild the script from a saved (rejected) execution."""
+    """--replay: rebuild the script from a saved (rejected) execution: every call in order (a "call" line is written before the
+    operation, so a crash inside it is reproduced too), an invocation becomes "await", a recorded wait a wait of 1 ms."""
     ev = [json.loads(x) for x in lines if x.strip().startswith("{")]
-    top, cb, key = [], {}, None
-    for e in ev:
+    top, cb, key, depth = [], {}, None, 0
+    for n, e in enumerate(ev):
         t = e["e"]
         if t == "fire":
             key = "%d:%d" % (e["i"], e["k"])
+            depth = 1
+            top.append({"o": "await", "i": e["i"]})
+        elif t == "cbend":
+            depth = 0
         elif t == "call":
-            # the call line is written before the operation: a crash inside it leaves no result line
             op = {"o": e["o"], "i": e["i"]}
-            nxt = next((x for x in ev[ev.index(e) + 1:] if x["e"] == e["o"] and x.get("i") == e["i"]), {})
+            nxt = next((x for x in ev[n + 1:n + 3] if x["e"] == e["o"] and x.get("i") == e["i"]), {})
             for f in ("f", "r", "on"):
                 if f in nxt:
                     op[f] = nxt[f]
-            in_cb = nxt.get("cb", 0) if nxt else (1 if key and ev[ev.index(e) - 1]["e"] in ("fire",) else 0)
-            (cb.setdefault(key, []) if in_cb else top).append(op)
+            (cb.setdefault(key, []) if depth else top).append(op)
         elif t == "wait":
             top.append({"o": "wait", "ms": 1})
-        elif t == "await":
+        elif t == "await" and not e["ok"]:
             top.append({"o": "await", "i": e["i"]})
     return {"top": top, "cb": cb}
 
@@ -248,21 +252,20 @@ def run(ctx):
         behs = c.tlc_gen("TimerFd", "Gen_TimerFd.tla", "Gen_focus.cfg" if quick else "Gen_focus_thorough.cfg", timeout=900, workers=2)
         scripts = dedupe([script_of(b) for b in behs])
         total = len(scripts)
-        if quick:
-            scripts = random.Random(ctx.seed).sample(scripts, min(len(scripts), 1500))
+        scripts = random.Random(ctx.seed).sample(scripts, min(len(scripts), 1500 if quick else 12000))     # real time: ~10 ms per script
         run_scripts(c, exe, scripts, "focus", "replay")
         return scripts, total
 
     def j_deep(c):
-        behs = c.tlc_gen("TimerFd", "Gen_TimerFd.tla", "Gen_sim.cfg", simulate=(3000 if quick else 60000, 80), timeout=600, workers=1,
-                         limit=500 if quick else 20000)
+        behs = c.tlc_gen("TimerFd", "Gen_TimerFd.tla", "Gen_sim.cfg", simulate=(3000 if quick else 40000, 80), timeout=600, workers=1,
+                         limit=500 if quick else 5000)
         scripts = dedupe([script_of(b, (1, 2)) for b in behs])
         run_scripts(c, exe, scripts, "deep", "replay", parallel=2)
         return scripts
 
     def j_random(c):
         rnd = random.Random(ctx.seed)
-        rs = [rand_script(rnd) for _ in range(900 if quick else 20000)]
+        rs = [rand_script(rnd) for _ in range(900 if quick else 8000)]
         ok, tr = run_scripts(c, exe, rs, "random", "trace")
         return [json.loads(x) for x in vlib.read_lines(tr, 1, 40) if '"call"' not in x][:16] if tr else []
 
